@@ -166,7 +166,28 @@ func runC05(r *core.Run) (bool, string) {
 			hps = append(hps, hp{gp, pl, p})
 		}
 	}
-	// random multi-placements
+	// payload kinds x syntactic contexts (closures, loops, branches, methods, blocks): quick takes a
+	// fixed core of payloads for every cell plus one rotating payload, thorough all of them
+	var ctxs []hp
+	core5 := map[string]bool{"percent": true, "qed": true, "quote-close": true, "close": true}
+	cell := 0
+	for _, kind := range gen.ContextKinds {
+		for _, cx := range gen.Contexts {
+			cell++
+			for pi, p := range gen.Payloads {
+				if r.Quick() && !core5[p.ID] && pi != cell%len(gen.Payloads) {
+					continue
+				}
+				name := fmt.Sprintf("x%d", len(ctxs))
+				gp, ok := gen.HostileContextPackage(name, kind, cx, p)
+				if !ok {
+					r.Count("placements_not_expressible_in_go", 1)
+					continue
+				}
+				ctxs = append(ctxs, hp{gp, kind + "-in-" + cx, p})
+			}
+		}
+	}
 	rng := core.NewRng(r.Seed, "c05")
 	// (3) nesting
 	nest := gen.NestingPackage(rng.Fork("nest"), "nesting", r.Pick(150, 3000))
@@ -179,6 +200,10 @@ func runC05(r *core.Run) (bool, string) {
 	var pkgs []*gorun.Pkg
 	srcOf := map[string]string{}
 	for _, h := range hps {
+		pkgs = append(pkgs, &gorun.Pkg{Name: h.pkg.Name, Files: map[string]string{h.pkg.Name + ".go": h.pkg.Source}})
+		srcOf[h.pkg.Name] = h.pkg.Source
+	}
+	for _, h := range ctxs {
 		pkgs = append(pkgs, &gorun.Pkg{Name: h.pkg.Name, Files: map[string]string{h.pkg.Name + ".go": h.pkg.Source}})
 		srcOf[h.pkg.Name] = h.pkg.Source
 	}
@@ -199,79 +224,10 @@ func runC05(r *core.Run) (bool, string) {
 		byName[p.Name] = p
 	}
 	for _, h := range hps {
-		p := byName[h.pkg.Name]
-		r.Eval(1)
-		key := h.placement + "/" + h.payload.ID
-		sig := "c05-" + h.placement + "-" + h.payload.ID
-		detail := map[string]interface{}{"placement": h.placement, "payload": h.payload.Text, "source": h.pkg.Source, "v": p.VFile}
-		if len(h.payload.Text) > 200 {
-			detail["payload"] = h.payload.Text[:200] + "…"
-			detail["source"] = "(omitted: very long line)"
-			detail["v"] = "(omitted)"
-		}
-		if p.Crashed {
-			r.Inconclusive("goose-crash")
-			continue
-		}
-		rejectedTarget := false
-		for _, e := range p.GooseErrs {
-			_ = e
-			rejectedTarget = true
-		}
-		if p.VFile == "" {
-			r.Violate(sig+"-no-output", "no output file although -ignore-errors was given", detail)
-			continue
-		}
-		if p.ParseErr != "" {
-			r.Distinct(key + "/unreadable")
-			r.Violate(sig+"-unreadable", fmt.Sprintf("payload %q at %s: the emitted file is not well-formed by Coq's rules: %s", short(h.payload.Text), h.placement, p.ParseErr), detail)
-			continue
-		}
-		f, _ := gl.ParseFile(p.VFile)
-		got := map[string]int{}
-		for _, d := range f.Defs() {
-			got[d.Name]++
-		}
-		bad := ""
-		for _, n := range expectedDefs(h.pkg.Source) {
-			if got[n] == 0 && !(rejectedTarget && (n == "target" || n == "Greeting")) {
-				bad = "definition of " + n + " is missing (swallowed by a comment or string?)"
-			}
-			if got[n] > 1 {
-				bad = "definition of " + n + " appears " + fmt.Sprint(got[n]) + " times"
-			}
-			delete(got, n)
-		}
-		for n := range got {
-			bad = "extra definition " + n + " that no Go declaration produces"
-		}
-		if bad != "" {
-			r.Distinct(key + "/defs-differ")
-			r.Violate(sig+"-definitions-differ", fmt.Sprintf("payload %q at %s: %s", short(h.payload.Text), h.placement, bad), detail)
-			continue
-		}
-		// string values must survive (differential)
-		ok := true
-		for _, c := range p.Cases {
-			if rejectedTarget {
-				continue // goose rejected a declaration (e.g. a string literal with quotes): nothing to compare
-			}
-			if c.Verdict == "mismatch" {
-				ok = false
-				r.Distinct(key + "/value-changed")
-				r.Violate(sig+"-value-changed", fmt.Sprintf("payload %q at %s: %s returns %s in Go but the emitted text evaluates to %s", short(h.payload.Text), h.placement, c.Case, c.GoValue, c.GL), detail)
-			}
-		}
-		if ok {
-			if rejectedTarget {
-				r.Distinct(key + "/rejected")
-				r.Count("hostile_placements_rejected_by_goose", 1)
-			} else {
-				r.Distinct(key + "/intact")
-				r.Count("hostile_placements_intact", 1)
-			}
-			r.Sample(6, map[string]interface{}{"placement": h.placement, "payload": short(h.payload.Text), "definitions_read": len(f.Defs()), "verdict": "intact"})
-		}
+		c05JudgeHostile(r, byName[h.pkg.Name], h.pkg, h.placement, h.payload)
+	}
+	for _, h := range ctxs {
+		c05JudgeHostile(r, byName[h.pkg.Name], h.pkg, h.placement, h.payload)
 	}
 	// (3) nesting
 	if np := byName[nest.Name]; np != nil && np.ParseErr == "" && np.VFile != "" {
@@ -567,4 +523,151 @@ func c05Arity(r *core.Run, pkg string, f *gl.File, src string) {
 	if vs := arityViolations(f); len(vs) > 0 {
 		r.Violate("c05-library-function-over-applied", "lost parentheses: "+vs[0], map[string]interface{}{"pkg": pkg, "all": vs, "source": src})
 	}
+}
+
+func c05JudgeHostile(r *core.Run, p *tvPkg, pkg *gen.Package, placement string, payload gen.Payload) {
+	for once := true; once; once = false {
+		r.Eval(1)
+		key := placement + "/" + payload.ID
+		sig := "c05-" + placement + "-" + payload.ID
+		detail := map[string]interface{}{"placement": placement, "payload": payload.Text, "source": pkg.Source, "v": p.VFile}
+		if len(payload.Text) > 200 {
+			detail["payload"] = payload.Text[:200] + "…"
+			detail["source"] = "(omitted: very long line)"
+			detail["v"] = "(omitted)"
+		}
+		if p.Crashed {
+			r.Inconclusive("goose-crash")
+			continue
+		}
+		rejectedTarget := len(p.GooseErrs) > 0
+		rejected := rejectedDecls(pkg.Source, p.GooseErrs)
+		if p.VFile == "" {
+			r.Violate(sig+"-no-output", "no output file although -ignore-errors was given", detail)
+			continue
+		}
+		if p.ParseErr != "" {
+			r.Distinct(key + "/unreadable")
+			r.Violate(sig+"-unreadable", fmt.Sprintf("payload %q at %s: the emitted file is not well-formed by Coq's rules: %s", short(payload.Text), placement, p.ParseErr), detail)
+			continue
+		}
+		f, _ := gl.ParseFile(p.VFile)
+		got := map[string]int{}
+		for _, d := range f.Defs() {
+			got[d.Name]++
+		}
+		bad := ""
+		for _, n := range expectedDefs(pkg.Source) {
+			if got[n] == 0 && !rejected[n] {
+				bad = "definition of " + n + " is missing (swallowed by a comment or string?)"
+			}
+			if got[n] > 1 {
+				bad = "definition of " + n + " appears " + fmt.Sprint(got[n]) + " times"
+			}
+			delete(got, n)
+		}
+		for n := range got {
+			bad = "extra definition " + n + " that no Go declaration produces"
+		}
+		if bad != "" {
+			r.Distinct(key + "/defs-differ")
+			r.Violate(sig+"-definitions-differ", fmt.Sprintf("payload %q at %s: %s", short(payload.Text), placement, bad), detail)
+			continue
+		}
+		// string values must survive (differential)
+		ok := true
+		for _, c := range p.Cases {
+			if rejectedTarget {
+				continue // goose rejected a declaration (e.g. a string literal with quotes): nothing to compare
+			}
+			if c.Verdict == "mismatch" {
+				ok = false
+				r.Distinct(key + "/value-changed")
+				r.Violate(sig+"-value-changed", fmt.Sprintf("payload %q at %s: %s returns %s in Go but the emitted text evaluates to %s", short(payload.Text), placement, c.Case, c.GoValue, c.GL), detail)
+			}
+		}
+		if ok {
+			if rejectedTarget {
+				r.Distinct(key + "/rejected")
+				r.Count("hostile_placements_rejected_by_goose", 1)
+			} else {
+				r.Distinct(key + "/intact")
+				r.Count("hostile_placements_intact", 1)
+			}
+			r.Sample(6, map[string]interface{}{"placement": placement, "payload": short(payload.Text), "definitions_read": len(f.Defs()), "verdict": "intact"})
+		}
+	}
+}
+
+// rejectedDecls maps goose's error positions to the documented names of the declarations they lie in.
+// An error whose position cannot be read makes every declaration count as possibly rejected.
+func rejectedDecls(src string, errs []gooseErr) map[string]bool {
+	out := map[string]bool{}
+	if len(errs) == 0 {
+		return out
+	}
+	fset := token.NewFileSet()
+	f, err := parser.ParseFile(fset, "x.go", src, 0)
+	all := func() map[string]bool {
+		for _, n := range expectedDefs(src) {
+			out[n] = true
+		}
+		return out
+	}
+	if err != nil {
+		return all()
+	}
+	for _, e := range errs {
+		parts := strings.Split(e.Src, ":")
+		if len(parts) < 3 {
+			return all()
+		}
+		var line int
+		fmt.Sscanf(parts[len(parts)-2], "%d", &line)
+		found := false
+		for _, d := range f.Decls {
+			if fset.Position(d.Pos()).Line <= line && line <= fset.Position(d.End()).Line {
+				one := &ast.File{Name: f.Name, Decls: []ast.Decl{d}}
+				_ = one
+				for _, n := range declDefNames(d) {
+					out[n] = true
+				}
+				found = true
+			}
+		}
+		if !found {
+			return all()
+		}
+	}
+	return out
+}
+
+func declDefNames(d ast.Decl) []string {
+	var out []string
+	switch d := d.(type) {
+	case *ast.FuncDecl:
+		name := d.Name.Name
+		if d.Recv != nil && len(d.Recv.List) == 1 {
+			t := d.Recv.List[0].Type
+			if st, ok := t.(*ast.StarExpr); ok {
+				t = st.X
+			}
+			if id, ok := t.(*ast.Ident); ok {
+				name = id.Name + "__" + name
+			}
+		}
+		out = append(out, name)
+	case *ast.GenDecl:
+		for _, sp := range d.Specs {
+			switch sp := sp.(type) {
+			case *ast.TypeSpec:
+				out = append(out, sp.Name.Name)
+			case *ast.ValueSpec:
+				for _, n := range sp.Names {
+					out = append(out, n.Name)
+				}
+			}
+		}
+	}
+	return out
 }
